@@ -102,6 +102,9 @@ def plan(ctx):
     # a transaction that dirties far more pages than SQLite's page cache holds (pages are spilled into the database
     # file before COMMIT; only the rollback journal can undo them after a kill)
     bg = L.make_shape("BG", [4, 3], kinds=["DBFI", "IUI"], big=BIG_ROWS)
+    # a database that is already at a later version: versions 1 and 3 are applied, then 2 and 4 are added and
+    # `--exec-order non-linear` executes the out-of-order file 2 (and 4); a kill inside file 2 must be resumed there
+    nl = L.make_shape("N", [3, 3, 2, 2], kinds=["DII", "III", "II", "II"], history=[0, 2], args=["--exec-order", "non-linear"])
     if ctx.quick():
         add(hs, modes=("none",), tag="hash-prefix")
         add(bg, modes=("file", "all"), tag="big-tx", only="after-big")
@@ -110,18 +113,19 @@ def plan(ctx):
         add(ks[2], modes=("none", "all"), tag="checkpoint")
         add(a)
         add(random_shape(ctx, "Q", 3, 3, "quick"))
-        add(s1, modes=("file", "all"))
+        add(s1, modes=("file",))
         add(L.relaxed(s1, "Sn"), modes=("none",))
-        add(s2, modes=("file", "all"))
+        add(s2, modes=("file",))
         # the kinds thorough enumerates in more variants: partial start, directives, WAL
         add(pz, modes=("none",), ref_only=True)  # only to observe where the first kill has to go
-        add(pz, prefix=[after_stmt(3)], tag="partial-start")
+        add(pz, modes=("file", "none"), prefix=[after_stmt(3)], tag="partial-start")
         add(L.make_shape("Dn", [2, 1, 2], directives={1: "none"}), modes=("file",), tag="directive")
         add(L.make_shape("DfL", [2, 2, 1], directives={2: "file"}), modes=("none",), tag="directive")
         add(L.make_shape("DfM", [2, 1, 2], directives={1: "file"}), modes=("none",), tag="directive")
         # the txmode directive inside a header that also holds ordinary comment lines (before and after it)
         add(L.make_shape("DfMc", [2, 3, 1], directives={1: "file"}, headers={1: (1, 1)}), modes=("none",), tag="directive")
         add(L.make_shape("Dnc", [2, 3], directives={1: "none"}, headers={1: (2, 0)}), modes=("file",), tag="directive")
+        add(nl, modes=("none", "file"), tag="out-of-order")
         add(a, modes=("file",), params="_journal_mode=WAL", tag="wal")
         return cfgs
     add(hs, modes=("none",), tag="hash-prefix")
@@ -134,6 +138,9 @@ def plan(ctx):
     add(L.make_shape("Hd", [2, 4], kinds=["DI", "IIII"], salts={(1, 0): "1", (1, 1): "h", (1, 2): "hh"}, directives={1: "none"}),
         modes=("file",), tag="hash-prefix")
     add(bg, tag="big-tx")
+    add(nl, tag="out-of-order")
+    add(L.make_shape("N2", [2, 2, 3, 1, 2], kinds=["DI", "II", "IDI", "I", "II"], history=[0, 3], args=["--exec-order", "non-linear"]),
+        tag="out-of-order")
     add(L.make_shape("BG2", [5], kinds=["DBFUI"], big=BIG_ROWS), modes=("file", "all"), tag="big-tx")
     for k in ks:
         add(k, tag="checkpoint", strace=(k["name"] == "K2"))
@@ -191,14 +198,16 @@ class Runner:
         key = json.dumps(shape, sort_keys=True)
         if key not in self.templates:
             d = os.path.join(self.ctx.scratch, "tmpl%03d" % len(self.templates))
-            vlib.write_files(os.path.join(d, "migrations"), L.shape_files(shape))
-            rc, out, err = self.ctx.atlas_run(["migrate", "hash", "--dir", "file://migrations"], cwd=d)
-            if rc != 0 or not os.path.exists(os.path.join(d, "migrations", "atlas.sum")):
-                raise RuntimeError("migrate hash failed on the generated directory: %s %s" % (out, err))
+            dirs = [("migrations", None)] + ([("migrations_pre", shape["history"])] if "history" in shape else [])
+            for sub, only in dirs:
+                vlib.write_files(os.path.join(d, sub), L.shape_files(shape, only))
+                rc, out, err = self.ctx.atlas_run(["migrate", "hash", "--dir", "file://" + sub], cwd=d)
+                if rc != 0 or not os.path.exists(os.path.join(d, sub, "atlas.sum")):
+                    raise RuntimeError("migrate hash failed on the generated directory: %s %s" % (out, err))
             self.templates[key] = os.path.join(d, "migrations")
         return self.templates[key]
 
-    def step(self, d, n, kind, case, kill, before, trace_syscalls=None):
+    def step(self, d, n, kind, case, kill, before, trace_syscalls=None, setup=False):
         db = os.path.join(d, "db.sqlite")
         tf = os.path.join(d, "trace.%d" % n)
         env = {"VERIF_TRACE": tf}
@@ -211,8 +220,11 @@ class Runner:
         elif trace_syscalls:
             strace = ["-e", "trace=" + ",".join(trace_syscalls)]
         url = "sqlite://" + db + ("?" + case["params"] if case.get("params") else "")
-        rc, out, err = self.ctx.atlas_run(["migrate", "apply", "--dir", "file://migrations", "--url", url, "--tx-mode", glob],
-                                          cwd=d, env=env, strace=strace, timeout=120)
+        if setup:
+            args = ["migrate", "apply", "--dir", "file://migrations_pre", "--url", url]
+        else:
+            args = ["migrate", "apply", "--dir", "file://migrations", "--url", url, "--tx-mode", glob] + list(case["shape"].get("args", []))
+        rc, out, err = self.ctx.atlas_run(args, cwd=d, env=env, strace=strace, timeout=120)
         with self.ctx.lock:
             self.runs += 1
         trace = [ln.strip() for ln in open(tf)] if os.path.exists(tf) else []
@@ -230,6 +242,13 @@ class Runner:
         shutil.copytree(self.template(case["shape"]), os.path.join(d, "migrations"))
         steps, state, n = [], None, 0
         try:
+            if "history" in case["shape"]:
+                shutil.copytree(self.template(case["shape"]) + "_pre", os.path.join(d, "migrations_pre"))
+                steps.append(self.step(d, n, "setup", case, None, state, setup=True))
+                n += 1
+                state = steps[-1]["after"]
+                if steps[-1]["rc"] != 0:
+                    return steps
             for k in case.get("prefix", []):
                 steps.append(self.step(d, n, "prefix", case, k, state))
                 n += 1
